@@ -636,7 +636,9 @@ class World:
         tid = st._get_object_shape_id(
             mt.x_name, [U(c.id) for c in pre], [e[2].decode() for e in els],
             [st.enums.Cardinality(e[1]) for e in els],
-            links_props=lps, links=links, has_implicit_fields=implicit)
+            links_props=lps, links=links, has_implicit_fields=implicit,
+            # (fix d2d2129) the source types count when some element comes from another type
+            sources=[x.id for x in srcs] if any(x.id != mt.id for x in srcs) else None)
         post = []
         eph = False
         if v2:
@@ -894,6 +896,7 @@ def l2_compile(ctx: core.Ctx, n_queries: int) -> dict:
     pvs = L2_PVS
     if defines.MIN_PROTOCOL != (1, 0) or defines.CURRENT_PROTOCOL != (3, 0):
         raise core.Infra('protocol range changed: extend the list of protocol versions')
+    ctx.log('level 2: bridge + schema ready')
     spec = L2Spec()
     gen = L2Gen(rng, spec)
     queries = []
@@ -976,6 +979,7 @@ def l2_compile(ctx: core.Ctx, n_queries: int) -> dict:
     except Exception as e:      # noqa: BLE001
         rec['sql_error'] = f'{type(e).__name__}: {e}'[:300]
 
+    ctx.log(f'level 2: {len(rec["out"]) + len(rec["in"])} compilations on S1')
     # ---- the history: in-place ALTERs that keep ids, same process
     hist = spec.history()
     if ctx.quick():
@@ -1331,14 +1335,17 @@ class Run:
                                  lambda: st.describe_params(schema=w.schema, params=params, protocol_version=pv)[0],
                                  abs_params, pv, replay=f'seed={self.ctx.seed} world={wi} params pv={pv}')
 
-            def abs_sql(params=params, v2=v2):
+            def abs_sql(v2=v2):
                 pre = [w.abs(t, v2) for (_n, t, _r) in params]
                 tid = st._get_object_shape_id('SQLRow', [U(c.id) for c in pre], [p[0] for p in params])
                 return Node('sqlrow', tid.bytes, None, [p[0].encode() for p in params], pre)
-            if params and len({p[0] for p in params}) == len(params):
+            if params:
+                if rng.random() < 0.3:      # a repeated column name (`select 1 as a, 2 as a`)
+                    params = params + [(params[0][0], w.gen_type(0), True)]
                 self.schema_case(w, 'describe_sql_result',
-                                 lambda: st.describe_sql_result(schema=w.schema, row={n: t for (n, t, _r) in params},
-                                                                protocol_version=pv)[0],
+                                 lambda params=params: st.describe_sql_result(
+                                     schema=w.schema, row=[(n, t) for (n, t, _r) in params],
+                                     protocol_version=pv)[0],
                                  abs_sql, pv, decodable=False, replay=f'seed={self.ctx.seed} world={wi} sqlrow pv={pv}')
             # input shapes (state descriptors)
             C = st.enums.Cardinality
@@ -1492,6 +1499,7 @@ class Run:
         xs = lambda l: ','.join('x' + s.encode().hex() for s in l) if l else '-'  # noqa: E731
         bl = lambda l: 'N' if l is None else (','.join('1' if b else '0' for b in l) or '-')  # noqa: E731
         keys = []
+        oids = [U(bytes([7] * 16)), U(bytes([8] * 16)), ids[0]]      # source type ids
         for pair in load_corpus()['id_calls']:          # regression cases first
             for (fn, base, subs, names) in pair:
                 sids = [sx.s_obj.get_known_type_id(x) for x in subs]
@@ -1508,6 +1516,9 @@ class Run:
                 keys.append(('c', 'tuple', subs, list(names)))
                 keys.append(('s', 'default::T', subs, list(names), [C.ONE] * k, [False] * k, [False] * k, False))
                 keys.append(('s', 'SQLRow', subs, list(names), None, None, None, False))
+            for srcs in [[]] + [list(x) for x in itertools.product(oids, repeat=k)]:
+                keys.append(('s', 'default::T', [ids[0]] * k, ['a', 'b'][:k], [C.ONE] * k, [False] * k,
+                             [False] * k, False, srcs))
         for ct in ('tuple', 'array', 'range', 'multirange'):
             for k in range(0, 3):
                 for subs in itertools.product(ids[:2], repeat=k):
@@ -1527,7 +1538,8 @@ class Run:
                 cards = [rng.choice(list(C)) for _ in range(k)]
                 lb = lambda: rng.choice([None, [rng.random() < 0.5 for _ in range(k)]])  # noqa: E731
                 keys.append(('s', rng.choice(['default::T', 'default::U', 'std::FreeObject']), subs, names,
-                             cards if rng.random() < 0.85 else None, lb(), lb(), rng.random() < 0.5))
+                             cards if rng.random() < 0.85 else None, lb(), lb(), rng.random() < 0.5,
+                             rng.choice([None, None, [rng.choice(oids) for _ in range(k)]])))
         by_id: dict = {}
         for key in keys:
             if key[0] == 'c':
@@ -1539,15 +1551,17 @@ class Run:
                     norm = ('empty-tuple',)
                 names = key[3] or []
             elif key[0] == 's':
-                _k, base, subs, names, cards, lp, lk, impl = key
+                _k, base, subs, names, cards, lp, lk, impl = key[:8]
+                srcs = key[8] if len(key) > 8 else None
                 real = st._get_object_shape_id(base, subs, names, cards, links_props=lp, links=lk,
-                                               has_implicit_fields=impl)
+                                               has_implicit_fields=impl, sources=srcs)
                 cs = 'N' if cards is None else (','.join(str(c.value) for c in cards) or '-')
                 line = f'K s x{base.encode().hex()} {xs([str(i) for i in subs])} {xs(names)} {cs} ' \
-                       f'{bl(lp)} {bl(lk)} {"1" if impl else "0"}'
+                       f'{bl(lp)} {bl(lk)} {"1" if impl else "0"} ' \
+                       f'{"N" if srcs is None else xs([str(i) for i in srcs])}'
                 norm = ('s', base, tuple(subs), tuple(names) if names else None,
                         tuple(cards) if cards else None, None if lp is None else tuple(lp),
-                        None if lk is None else tuple(lk), impl)
+                        None if lk is None else tuple(lk), impl, tuple(srcs) if srcs else None)
             else:
                 real = st._get_set_type_id(key[1])
                 line = f'K t x{str(key[1]).encode().hex()}'
@@ -1750,7 +1764,8 @@ class Run:
         for (key, pv), items in sorted(pairs.items()):
             if len(items) == 2 and items[0][2] == items[1][2] and items[0][1] != items[1][1] and key not in done:
                 done.add(key)
-                ctx.fail(key, 'two accepted queries over one schema: one out_type_id, different out_type_data',
+                ctx.fail('oracle:corpus-pair:' + key, 'two accepted queries over one schema: one out_type_id, '
+                         'different out_type_data',
                          {'protocol': list(pv), 'out_type_id': items[0][2].hex(),
                           'query_1': items[0][0], 'out_type_data_1': items[0][1].hex(),
                           'query_2': items[1][0], 'out_type_data_2': items[1][1].hex(),
@@ -1772,7 +1787,7 @@ class Run:
                     got_names = [x.decode() for x in t.payload] if t.kind == 'sqlrow' else None
                 if got_names != names:
                     dup = len(set(names)) != len(names)
-                    ctx.fail('sqlrow-duplicate-column-names' if dup else f'oracle:sqlrow:{names}',
+                    ctx.fail(f'oracle:sqlrow:{names}',
                              'the SQL_ROW descriptor does not list the columns of the row'
                              + (' (compile_sql_descriptors collects them in a dict: a repeated column name '
                                 'loses a column)' if dup else ''),
@@ -1934,10 +1949,10 @@ def run(ctx: core.Ctx):
     else:
         R.stream_a(ctx.budget(180, 3000))
         ctx.log(f'stream A: {sum(v for k, v in R.hist.items() if k.startswith("A:describe"))} describe() cases')
-        R.stream_b(ctx.budget(800, 100000))
+        R.stream_b(ctx.budget(650, 100000))
         n_ex = R.stream_exhaustive(ctx.budget(4, 1))
         ctx.log(f'stream B: random + {n_ex} exhaustive trees')
-        R.stream_d(ctx.budget(1500, 30000))
+        R.stream_d(ctx.budget(1000, 30000))
         R.stream_l2(l2)
 
     out = ctx.driver('C14', R.lines)
@@ -1950,7 +1965,7 @@ def run(ctx: core.Ctx):
 
     if not ctx.replay:
         R.lines, R.handlers = [], []
-        R.stream_c(ctx.budget(2000, 40000))
+        R.stream_c(ctx.budget(1500, 40000))
         out = ctx.driver('C14', R.lines)
         if len(out) != len(R.lines):
             raise core.Infra(f'driver returned {len(out)} lines for {len(R.lines)}')
@@ -2344,9 +2359,13 @@ def l2_reid(n: Node, st, U, base_of, memo=None):
         elif u.kind == 'shape' and (u.post or u.payload[0]):
             base = 'std::FreeObject' if u.payload[0] else u.post[0].meta[0].decode()
             els = u.payload[1]
+            srcs = None
+            if u.post and any(x.id != u.post[0].id for x in u.post[1:]):
+                srcs = [U(x.id) for x in u.post[1:]]
             want = {st._get_object_shape_id(base, subs, [e[2].decode() for e in els], [C(e[1]) for e in els],
                                             links_props=[bool(e[0] & 2) for e in els],
-                                            links=[bool(e[0] & 4) for e in els], has_implicit_fields=b).bytes
+                                            links=[bool(e[0] & 4) for e in els], has_implicit_fields=b,
+                                            sources=srcs).bytes
                     for b in (False, True)}
         else:
             continue
